@@ -455,7 +455,10 @@ class _LinearMatrix_sparse_forward_sparse_covariance(_AbstractDistribution):
         d: _numpy.ndarray,
         data_covariance: _scipy.sparse.spmatrix,
         dtype=_numpy.single,
+        premultiplication: bool = None,
     ):
+        # premultiplication is accepted for a uniform interface; this back end always
+        # evaluates the residual form.
         self.dimensions = G.shape[1]
         self.G = G.astype(dtype)
         self.d = d.astype(dtype)
